@@ -22,41 +22,79 @@ def main():
     base = [ag_ctx._default_control_status_ctx()] + [rnd.choice(pool) for _ in range(rnd.randint(0, 4))]
     ag_ctx.stacks.control_status = list(base)
     lst = ag_ctx.stacks.control_status
-    op = rnd.choice(['enter', 'exit', 'fs', 'top'])
+    op = rnd.choice(['enter', 'exit', 'fs', 'top', 'dnc', 'unspec', 'wfs'])
     bad = None
     distinct.add((op, tuple(pool.index(c) if c in pool else -1 for c in base)))
-    if op == 'enter':
-      c = rnd.choice(pool)
-      r = c.__enter__()
-      now = ag_ctx.stacks.control_status
-      if not (r is c and now is lst and len(now) == len(base) + 1 and now[-1] is c
-              and all(a is b for a, b in zip(now, base))):
-        bad = '__enter__ must push self on top and keep everything below'
-    elif op == 'exit':
-      c = rnd.choice(pool)
-      lst.append(c)                     # precondition of __exit__: self is on top
-      before = list(lst)
-      c.__exit__(None, None, None)
-      now = ag_ctx.stacks.control_status
-      if not (now is lst and len(now) == len(before) - 1 and all(a is b for a, b in zip(now, before))):
-        bad = '__exit__ must pop exactly the top entry (self) and keep everything below, in order'
-    elif op == 'fs':
-      opts = converter.ConversionOptions(recursive=rnd.random() < 0.5, user_requested=rnd.random() < 0.5,
-                                         optional_features=None)
-      fs = function_wrappers.FunctionScope('f', 'fscope', opts)
-      before = list(lst)
-      fs.__enter__()
-      mid = list(ag_ctx.stacks.control_status)
-      ok_mid = (len(mid) == len(before) + 1 and mid[-1].status is S.ENABLED) if opts.user_requested else mid == before
-      exc = rnd.random() < 0.5
-      fs.__exit__(ValueError if exc else None, ValueError('x') if exc else None, None)
-      now = ag_ctx.stacks.control_status
-      if not (ok_mid and now is lst and len(now) == len(before) and all(a is b for a, b in zip(now, before))):
-        bad = 'FunctionScope enter/exit must push an ENABLED context iff user_requested and restore the stack'
-    else:
-      top = ag_ctx.control_status_ctx()
-      if top is not lst[-1] or len(lst) != len(base):
-        bad = 'control_status_ctx must return the top of the stack without changing it'
+    try:
+      if op == 'enter':
+        c = rnd.choice(pool)
+        r = c.__enter__()
+        now = ag_ctx.stacks.control_status
+        if not (r is c and now is lst and len(now) == len(base) + 1 and now[-1] is c
+                and all(a is b for a, b in zip(now, base))):
+          bad = '__enter__ must push self on top and keep everything below'
+      elif op == 'exit':
+        c = rnd.choice(pool)
+        lst.append(c)                     # precondition of __exit__: self is on top
+        before = list(lst)
+        c.__exit__(None, None, None)
+        now = ag_ctx.stacks.control_status
+        if not (now is lst and len(now) == len(before) - 1 and all(a is b for a, b in zip(now, before))):
+          bad = '__exit__ must pop exactly the top entry (self) and keep everything below, in order'
+      elif op == 'fs':
+        opts = converter.ConversionOptions(recursive=rnd.random() < 0.5, user_requested=rnd.random() < 0.5,
+                                           optional_features=None)
+        fs = function_wrappers.FunctionScope('f', 'fscope', opts)
+        before = list(lst)
+        fs.__enter__()
+        mid = list(ag_ctx.stacks.control_status)
+        ok_mid = (len(mid) == len(before) + 1 and mid[-1].status is S.ENABLED) if opts.user_requested else mid == before
+        exc = rnd.random() < 0.5
+        fs.__exit__(ValueError if exc else None, ValueError('x') if exc else None, None)
+        now = ag_ctx.stacks.control_status
+        if not (ok_mid and now is lst and len(now) == len(before) and all(a is b for a, b in zip(now, before))):
+          bad = 'FunctionScope enter/exit must push an ENABLED context iff user_requested and restore the stack'
+      elif op in ('dnc', 'unspec'):
+        from malt.impl import api
+        seen = []
+        boom = rnd.random() < 0.3
+
+        def probe(a, k=None):
+          seen.append((ag_ctx.control_status_ctx().status, len(ag_ctx.stacks.control_status), a, k))
+          if boom:
+            raise KeyError('probe')
+          return ('r', a)
+        wrapped = (api.do_not_convert if op == 'dnc' else api.call_with_unspecified_conversion_status)(probe)
+        want = S.DISABLED if op == 'dnc' else S.UNSPECIFIED
+        try:
+          r = wrapped(7, k=8)
+        except KeyError:
+          r = 'raised'
+        now = ag_ctx.stacks.control_status
+        if not (len(seen) == 1 and seen[0] == (want, len(base) + 1, 7, 8) and r == ('raised' if boom else ('r', 7))
+                and now is lst and len(now) == len(base) and all(a is b for a, b in zip(now, base))):
+          bad = ('the %s wrapper must call the function once, with the arguments, under a %s context pushed on '
+                 'top, and restore the stack (also when the function raises)' % (op, want))
+      elif op == 'wfs':
+        opts = converter.ConversionOptions(recursive=rnd.random() < 0.5, user_requested=rnd.random() < 0.5,
+                                           optional_features=None)
+        seen = []
+
+        def thunk(scope):
+          seen.append((scope, [c.status for c in ag_ctx.stacks.control_status[len(base):]]))
+          return 'ret'
+        r = function_wrappers.with_function_scope(thunk, 'sc', opts)
+        now = ag_ctx.stacks.control_status
+        if not (r == 'ret' and len(seen) == 1 and isinstance(seen[0][0], function_wrappers.FunctionScope)
+                and seen[0][1] == ([S.ENABLED] if opts.user_requested else [])
+                and now is lst and len(now) == len(base) and all(a is b for a, b in zip(now, base))):
+          bad = 'with_function_scope must run the thunk once inside a FunctionScope and restore the stack'
+      else:
+        top = ag_ctx.control_status_ctx()
+        if top is not lst[-1] or len(lst) != len(base):
+          bad = 'control_status_ctx must return the top of the stack without changing it'
+    except Exception as e:   # a contract broken badly enough to trip an internal assertion
+      bad = 'operation %s raised %s: %s' % (op, type(e).__name__, e)
     if bad:
       failures.append(dict(kind='contract', sig=op, what=bad, op=op,
                            stack=[str(c.status) for c in base], same_object_twice=len(set(map(id, base))) < len(base)))
